@@ -43,13 +43,13 @@ Proof. vm_compute. reflexivity. Qed.
 Example gemfile_spec_before_section : parse_gemfile [32; 32; 32; 32; 97; 32; 40; 49; 41; 10] = Err EInvalid.
 Proof. vm_compute. reflexivity. Qed.
 
-(* A refutation at structure level, re-derived by the model and observed on the implementation (known
-   finding C02/packagelock-npm-alias): a lockfileVersion-1 dependency whose version is an "npm:" alias
-   without '@' makes parseNpmLockDependencies slice detail.Version[4:-1]. *)
-Theorem packagelock_alias_refuted :
-  exists st, extract_packagelock st = Panic.
-Proof.
-  exists {| ns_packages := None; ns_dependencies := [([97], NDep [110;112;109;58;98] [] None)] |}.
-  vm_compute. reflexivity.
-Qed.
-Print Assumptions packagelock_alias_refuted.
+(* package-lock.json at structure level: after fix b789a319 (an "npm:" alias is only split when it has the form
+   npm:<name>@<version>) the extractor loop has no partial operation left; the model returns Ok on every structure.
+   (Before the fix the model reproduced the slice-bounds panic on "npm:name"; regression witness in
+   KNOWN_FINDINGS.d/C02.json, packagelockjson-npm-alias-without-at, status fixed.) *)
+Theorem packagelock_struct_never_panics : forall st, extract_packagelock st <> Panic.
+Proof. intros st. unfold extract_packagelock. destruct (ns_packages st); discriminate. Qed.
+Print Assumptions packagelock_struct_never_panics.
+Example packagelock_alias_without_at :
+  extract_packagelock {| ns_packages := None; ns_dependencies := [([97], NDep [110;112;109;58;98] [] None)] |} = Ok [([97], [110;112;109;58;98])].
+Proof. vm_compute. reflexivity. Qed.
